@@ -28,31 +28,68 @@ theorem source_shape_pinned :
     ∧ C05.setDisplayPin = "366dfa0e55ad3a51" ∧ C05.shouldDisplayPin = "657947f9634c6cb8"
     ∧ C05.filterDisplayPin = "255395ecf21e15e7" ∧ C05.strPin = "8828a39a0deba104" := by decide
 
+/-- Tie to the source for the entity kinds of round 3 (regenerated on every run): where namelists get
+    their pages (`Project._fortran_file`: directly from top-level procedures and programs, through
+    `routines` from modules, submodules and programs; never from block data), what `routines` iterates,
+    which page templates render an entity's namelists, which classes are `visible` from their construction
+    on, the two permission tests that decide which members an extending type inherits, pins of the
+    three `correlate` methods that move entities between lists before any `prune()` runs, and the only
+    `correlate` that sets `visible` (block data: its types; or none - candidate repair
+    `fixes/C05-blockdata-types-visible.diff`). -/
+theorem source_shape_pinned_round3 :
+    C05.namelistCollect = [("modules", false, true), ("submodules", false, true), ("functions", true, false),
+      ("subroutines", true, false), ("programs", true, true), ("blockdata", false, false)]
+    ∧ C05.routinesLists = ["functions", "subroutines", "modprocedures"]
+    ∧ C05.namelistSections = ["proc_page.html", "prog_page.html"]
+    ∧ C05.visibleAtInit = ["FortranBlockData", "FortranCommon", "FortranModule", "FortranNamelist"]
+    ∧ C05.inheritTests = ["var.permission == 'public'", "bp.permission == 'private'"]
+    ∧ C05.commonCorrelatePin = "f0f9d51e38f21465" ∧ C05.namelistCorrelatePin = "0e6c9b5eb5f6f79d"
+    ∧ C05.typeCorrelatePin = "695bb8843b7fd1e5"
+    ∧ (C05.visibleInCorrelate = [("FortranBlockData", "typeorder")] ∨ C05.visibleInCorrelate = []) := by decide
+
 /-- Every child list that holds entities with an accessibility is passed through
-    `filter_display` by the `prune()` of every class that can contain it (and the lists of
-    dummy arguments / final procedures are not): for all well-formed (parent kind, child kind)
-    pairs except enumerations.  Removing one list from a `prune` in the source changes the
-    regenerated table and this obligation fails. -/
-theorem prune_lists_cover (pk ck : Kind) (h : kidOk pk ck = true) (he : ck ≠ .enum) (hc : classOf pk ≠ .none) :
-    filteredIn (classOf pk) (listOf ck) = !alwaysShown ck :=
+    `filter_display` by the `prune()` of every class that can contain it (and the lists of what
+    belongs to the parent's own description - dummy arguments, function results, final procedures,
+    the interface bodies of a generic interface - are not): for all well-formed (parent kind, child
+    kind) pairs - block data units, their types and variables included - except enumerations,
+    namelists and common blocks (known findings).  Removing one list from a `prune` in the source
+    changes the regenerated table and this obligation fails. -/
+theorem prune_lists_cover (pk ck : Kind) (h : kidOk pk ck = true) (he : gapKind ck = false) (hc : classOf pk ≠ .none) :
+    filteredIn (classOf pk) (listOf ck) = !ownDescr pk ck :=
   tbl_filtered pk ck h he hc
 
 /-- With `proc_internals` off, exactly the lists of filterable kinds are emptied (dummy arguments
-    stay), for every kind a procedure can contain. -/
-theorem internals_lists_cover (pk ck : Kind) (h : kidOk pk ck = true) (he : ck ≠ .enum) (hp : isProc pk = true) :
-    emptiedIn (classOf pk) (listOf ck) = !alwaysShown ck :=
+    and the result stay), for every kind a procedure can contain. -/
+theorem internals_lists_cover (pk ck : Kind) (h : kidOk pk ck = true) (he : gapKind ck = false) (hp : isProc pk = true) :
+    emptiedIn (classOf pk) (listOf ck) = !ownDescr pk ck :=
   tbl_emptied pk ck h he hp
 
 /-- `prune` recurses into exactly the child kinds that have a `prune` of their own (procedures
-    and derived types), so options set deeper in the tree are honoured at every depth. -/
-theorem prune_recursion_cover (pk ck : Kind) (h : kidOk pk ck = true) (he : ck ≠ .enum) (hc : classOf pk ≠ .none) :
+    and derived types - also the types of a block data unit), so options set deeper in the tree
+    are honoured at every depth. -/
+theorem prune_recursion_cover (pk ck : Kind) (h : kidOk pk ck = true) (he : gapKind ck = false) (hc : classOf pk ≠ .none) :
     recurseIn (classOf pk) (listOf ck) = (classOf ck != .none) :=
   tbl_recurse pk ck h he hc
+
+/-- `FortranBlockData.prune`: of what a block data unit can contain, variables and derived types are
+    filtered, derived types are made linkable and pruned in turn, variables are not marked. -/
+theorem blockdata_prune_cover (ck : Kind) (h : kidOk .blockdata ck = true) (he : gapKind ck = false) :
+    filteredIn .blockData (listOf ck) = true ∧ recurseIn .blockData (listOf ck) = (ck == .type)
+    ∧ visibleOnlyIn .blockData (listOf ck) = false := by
+  cases ck <;> revert h he <;> decide
 
 /-- The genuine gap in the tables: no `prune` filters or empties the `enums` list. -/
 theorem enums_list_unfiltered_witness :
     filteredIn .codeUnit (listOf .enum) = false ∧ filteredIn .submodule (listOf .enum) = false
     ∧ emptiedIn .codeUnit (listOf .enum) = false := by decide
+
+/-- The same gap for namelists and common blocks: whatever can contain one (module, submodule,
+    program, procedure, block data), its `prune()` neither filters nor empties the list, nor marks
+    or descends into its members. -/
+theorem namelists_commons_unfiltered_witness (pk ck : Kind) (h : kidOk pk ck = true) (hg : gapKind ck = true) :
+    filteredIn (classOf pk) (listOf ck) = false ∧ emptiedIn (classOf pk) (listOf ck) = false
+    ∧ recurseIn (classOf pk) (listOf ck) = false ∧ visibleOnlyIn (classOf pk) (listOf ck) = false :=
+  tbl_gap_untouched pk ck h hg
 
 /-- `_set_display` (inherit the parent's list at construction, override from own metadata,
     `none`, unknown words, `none` ignored for files) computes the display set the user guide
@@ -63,41 +100,150 @@ theorem setDisplay_denotes_inForce (isFile : Bool) (d md : List Word) (D : Word 
     (setDisplay isFile d md).contains p = inForce isFile D md p :=
   agree_setDisplay isFile d D md h p hp
 
-/-- **Selection, full strength** (holds for the code once the contents of a file inherit the
-    file's `display`): for every project-wide display list (not mixing `none` with permission
-    words), both values of `proc_internals` and `hide_undoc`, and every well-formed project
-    without enumerations - any nesting depth, any metadata at file / module / type / procedure
-    level - what the pages render after `prune` is exactly the selected set, in the same order.
-    This is no-leak and completeness in one equation. -/
-theorem site_eq_selected (cfg : Cfg) (p : List Ent) (hv : cfg.fileInherits = true)
-    (hc : cfgOk cfg = true) (hw : wfProject p = true) :
+/-- **Selection, full strength except for the never-filtered positions** (holds for the code now that
+    the contents of a file inherit the file's `display`): for every project-wide display list (not
+    mixing `none` with permission words), both values of `proc_internals` and `hide_undoc`, and every
+    well-formed project - any nesting depth; any metadata at file / module / type / procedure / block
+    data level; block data units, common blocks, namelists, enumerations, interface bodies in generic
+    interfaces, function results, extended types included - that meets none of the positions no
+    `prune()` reaches with an unselected entity (`outsideFindings`: the excluded class is exactly the
+    union of the known findings `C05-enum-never-filtered`, `C05-namelist-never-filtered`,
+    `C05-module-namelist-not-described`, `C05-common-never-filtered`), what the pages render after
+    `prune` is exactly the selected set, in the same order.  No-leak and completeness in one equation. -/
+theorem site_eq_selected_partial_gaps (cfg : Cfg) (p : List Ent) (hv : cfg.fileInherits = true)
+    (hc : cfgOk cfg = true) (hw : wfProject p = true) (ho : outsideFindings cfg p = true) :
     renderedOf (pruneProject cfg p) = selProject cfg p :=
-  rendered_pruneProject cfg hc p hw (Or.inl hv)
+  rendered_pruneProject cfg hc p hw ho (Or.inl hv)
 
-/-- **Selection, the code as it is**: the same equation when no source file carries `display`
-    metadata that says something (the excluded class is exactly known finding
+/-- The hypothesis `outsideFindings` costs nothing for a project without enumerations, namelists and
+    common blocks (the universe of rounds 1 and 2, plus block data, interface bodies, function results
+    and extended types): it holds for every configuration. -/
+theorem outside_findings_trivial (cfg : Cfg) (p : List Ent) (hw : wfProject p = true)
+    (hn : noGapKinds p = true) : outsideFindings cfg p = true :=
+  outsideFindings_of_noGapKinds cfg p hw hn
+
+/-- **Selection, full strength** on the projects without enumerations, namelists and common blocks:
+    no hypothesis beyond well-formedness. -/
+theorem site_eq_selected (cfg : Cfg) (p : List Ent) (hv : cfg.fileInherits = true)
+    (hc : cfgOk cfg = true) (hw : wfProject p = true) (hn : noGapKinds p = true) :
+    renderedOf (pruneProject cfg p) = selProject cfg p :=
+  rendered_pruneProject cfg hc p hw (outsideFindings_of_noGapKinds cfg p hw hn) (Or.inl hv)
+
+/-- **Selection, the code as it was** (before a001e63): the same equation when no source file
+    carries `display` metadata that says something (the excluded class is exactly known finding
     `C05-file-display-not-inherited`). -/
 theorem site_eq_selected_partial (cfg : Cfg) (p : List Ent) (hv : cfg.fileInherits = false)
-    (hc : cfgOk cfg = true) (hw : wfProject p = true) (hf : noFileDisplay p = true) :
+    (hc : cfgOk cfg = true) (hw : wfProject p = true) (ho : outsideFindings cfg p = true)
+    (hf : noFileDisplay p = true) :
     renderedOf (pruneProject cfg p) = selProject cfg p :=
-  rendered_pruneProject cfg hc p hw (Or.inr hf)
+  rendered_pruneProject cfg hc p hw ho (Or.inr hf)
 
 /-- No leak: nothing that is rendered anywhere is unselected. -/
 theorem no_leak_partial (cfg : Cfg) (p : List Ent) (hc : cfgOk cfg = true) (hw : wfProject p = true)
+    (ho : outsideFindings cfg p = true)
     (hf : cfg.fileInherits = true ∨ noFileDisplay p = true) (x : Nat)
     (hx : x ∈ renderedOf (pruneProject cfg p)) : x ∈ selProject cfg p := by
-  rw [← rendered_pruneProject cfg hc p hw hf]; exact hx
+  rw [← rendered_pruneProject cfg hc p hw ho hf]; exact hx
 
 /-- Complete: every selected entity is rendered. -/
 theorem complete_partial (cfg : Cfg) (p : List Ent) (hc : cfgOk cfg = true) (hw : wfProject p = true)
+    (ho : outsideFindings cfg p = true)
     (hf : cfg.fileInherits = true ∨ noFileDisplay p = true) (x : Nat)
     (hx : x ∈ selProject cfg p) : x ∈ renderedOf (pruneProject cfg p) := by
-  rw [rendered_pruneProject cfg hc p hw hf]; exact hx
+  rw [rendered_pruneProject cfg hc p hw ho hf]; exact hx
 
-/-- Own pages: the entities that get a page (project page lists filled through `CONTAINERS`
-    from the pruned code units, plus files and program units) are exactly the files, the
-    program units and the *selected* procedures / interfaces / types of modules and programs -
-    a selected entity of a page kind has its page, an unselected one has none. -/
+/-- **Type extension**: the tree `correlate` hands to `prune` - every extending type carries, in front
+    of its own members, the public components and the non-private bindings of the type it extends (with
+    what that type inherited itself; `inherit_type_members`) - is again a well-formed project, for every
+    project and every length of extension chain; so all theorems of this file apply to it. -/
+theorem inherited_members_well_formed (p : List Ent) (hw : wfProject p = true) (fuel : Nat) :
+    wfProject (inheritProject p fuel) = true ∧ noFileDisplay (inheritProject p fuel) = noFileDisplay p :=
+  ⟨wfProject_inheritProject p hw fuel, noFileDisplay_inheritList p fuel p⟩
+
+/-- the members of an extending type after `correlate` -/
+theorem inherit_type_members (p : List Ent) (fuel : Nat) (i : Info) (cs : Ents) (m : Nat)
+    (hk : i.kind = .type) (he : i.ext = some m) :
+    (Ent.inherit p fuel (.mk i cs)).kids = ((membersOf p fuel m).inheritable).append (cs.inherit p fuel) :=
+  inherit_type_kids p fuel i cs m hk he
+
+/-- **Inherited members are shown iff the extending type's options select them**: `FortranType.prune`
+    keeps an inherited component / binding - and makes it linkable - exactly when its permission is in
+    the display list in force in the *extending* type and, under `hide_undoc`, it is documented. -/
+theorem inherited_member_shown_iff (cfg : Cfg) (d : List Word) (c : Ent) (rest : Ents)
+    (hk : (c.info.kind == .variable || c.info.kind == .boundproc) = true) :
+    pruneKids cfg .dtype false d (.cons c rest) =
+      if shouldDisplay cfg d c.info then .cons c.setVisible (pruneKids cfg .dtype false d rest)
+      else pruneKids cfg .dtype false d rest :=
+  dtype_member_kept_iff cfg d c rest hk
+
+/-- **Names of type-bound procedures in type summaries** (partial: projects without type extension).
+    Without `extends`, the inheritance step of `correlate` changes nothing: every binding a type carries is
+    declared in that type, so the link `type_summary` puts on its name points at the page the type itself is
+    described on - which `pages_exact_partial` / `pages_are_linkable` show written.  The excluded class
+    contains known finding `C05-inherited-binding-links-to-unselected-type`
+    (`inherited_binding_links_to_unselected_type_witness`). -/
+theorem binding_name_links_partial (p : List Ent) (fuel : Nat) (hn : noExtension p = true) :
+    inheritProject p fuel = p :=
+  inheritList_noExtension p fuel p hn
+
+/-- **`extends(...)` links** (partial: projects without block data units): the type named in the
+    `extends(...)` of a type is printed as a link only if it is `visible`, and outside block data `visible` is
+    set by a `prune()` on what it keeps: the linked type survived `prune()` (so, by the selection theorems, it is
+    selected and described on a written page).  The excluded class is known finding
+    `C05-blockdata-type-visible-before-prune` (`blockdata_extends_link_witness`). -/
+theorem extends_links_partial (orig q : List Ent) (hn : noBlockDataIn orig = true) (t m : Nat)
+    (h : (t, m) ∈ extLinksOf orig q q) : m ∈ visibleIdsOf q ∧ m ∈ idsOf q := by
+  have hv := mem_extLinksOf orig q hn t m q h
+  exact ⟨hv, mem_visibleIdsOf_idsOf m q hv⟩
+
+/-- **Selection with type extension**: on the tree with the inherited members, what the pages render
+    is exactly the selected set, where a member inherited by a selected type counts as a member of that
+    type (selected iff public / non-private in the parent type - that is why it was inherited - and
+    selected by the display options in force in the extending type). -/
+theorem site_eq_selected_inherited (cfg : Cfg) (p : List Ent) (fuel : Nat) (hv : cfg.fileInherits = true)
+    (hc : cfgOk cfg = true) (hw : wfProject p = true)
+    (ho : outsideFindings cfg (inheritProject p fuel) = true) :
+    renderedOf (pruneProject cfg (inheritProject p fuel)) = selProject cfg (inheritProject p fuel) :=
+  rendered_pruneProject cfg hc _ (wfProject_inheritProject p hw fuel) ho (Or.inl hv)
+
+/-- **Per page** (full strength): whatever the model says one page shows - the page of a file, module,
+    submodule, program, block data unit, procedure, type, interface or namelist; the correspondence
+    compares exactly these sets with the tracer words of every generated page file - is shown by the
+    site-level abstraction `shownIds`: rendered somewhere in the pruned tree, named by something
+    rendered there (`refs`), or grouped by a namelist that has a page. -/
+theorem page_shows_within_site (cfg : Cfg) (p : List Ent) (hw : wfProject p = true) (pg : Nat) (ids : List Nat)
+    (h : (pg, ids) ∈ pagesShown cfg p) (x : Nat) (hx : x ∈ ids) : x ∈ shownIds cfg p :=
+  mem_pagesShown cfg p hw pg ids h x hx
+
+/-- **No leak, per page**: on every page, every documentation text is that of a selected entity, of an
+    entity that a rendered (hence selected) entity displays as its own description (the procedure a
+    binding / generic interface / final procedure names with its dummy arguments and result, a variable
+    a namelist groups), or of a namelist that has a page / a variable it groups (exact only outside
+    `C05-namelist-never-filtered`, see `namelist_never_filtered_witness`). -/
+theorem per_page_no_leak_partial (cfg : Cfg) (p : List Ent) (hc : cfgOk cfg = true) (hw : wfProject p = true)
+    (ho : outsideFindings cfg p = true) (hf : cfg.fileInherits = true ∨ noFileDisplay p = true)
+    (pg : Nat) (ids : List Nat) (h : (pg, ids) ∈ pagesShown cfg p) (x : Nat) (hx : x ∈ ids) :
+    x ∈ selProject cfg p ∨ x ∈ refsShown p (renderedRefsOf (pruneProject cfg p)) ∨ x ∈ nmlShown (nmlEnts p) := by
+  have hs := mem_pagesShown cfg p hw pg ids h x hx
+  simp only [shownIds, List.mem_append] at hs
+  rcases hs with (hs | hs) | hs
+  · left; rw [← rendered_pruneProject cfg hc p hw ho hf]; exact hs
+  · exact Or.inr (Or.inl hs)
+  · exact Or.inr (Or.inr hs)
+
+/-- **Namelist pages, completeness** (full strength): every selected namelist that stands in a
+    program or in a procedure with a page of its own has its page - for every configuration and every
+    well-formed project.  (The converse fails: `namelist_never_filtered_witness`.) -/
+theorem namelist_pages_complete (cfg : Cfg) (p : List Ent) (hw : wfProject p = true) (x : Nat)
+    (hx : x ∈ selNmlPages cfg p) : x ∈ nmlPageIds p :=
+  mem_selNmlPages cfg x p hw hx
+
+/-- Own pages: the entities that get a page through the project page lists (filled through
+    `CONTAINERS` from the pruned code units, plus files and program units - block data units and
+    their types included) are exactly the files, the program units and the *selected* procedures /
+    interfaces / types of modules, programs and block data units - a selected entity of a page kind
+    has its page, an unselected one has none.  Holds for every well-formed project, enumerations,
+    namelists and common blocks included (they are not page kinds of these lists). -/
 theorem pages_exact_partial (cfg : Cfg) (p : List Ent) (hc : cfgOk cfg = true) (hw : wfProject p = true)
     (hf : cfg.fileInherits = true ∨ noFileDisplay p = true) :
     pageIds (pruneProject cfg p) = selPages cfg p :=
@@ -135,15 +281,16 @@ theorem link_lookup_pinned :
        ∨ (C05.convertLinkPin = "36e31de78f46ca73" ∧ C05.hasWrittenPagePin = "18774cbfbb1007ee")) := by decide
 
 /-- Every list attribute `find_child` searches is one of the child lists of the entity tree
-    (those are what `prune()` filters: `prune_lists_cover`) - the only exceptions are `bindings`
-    (the model's `viaRef`), and `common` / `namelists`, which are not generated.  Adding a list
-    to `FortranBase.children` that no `prune()` knows changes this obligation. -/
+    (those `prune()` filters: `prune_lists_cover`; `common`, `namelists` and `enums`, which no `prune()`
+    touches: `namelists_commons_unfiltered_witness`) - the only exception is `bindings` (the model's
+    `viaRef`).  Adding a list to `FortranBase.children` that the entity tree does not have changes this
+    obligation. -/
 theorem link_lookup_lists_are_tree_lists :
-    ∀ l ∈ C05.childrenLists, l = "bindings" ∨ l = "namelists" ∨
+    ∀ l ∈ C05.childrenLists, l = "bindings" ∨
       (listOf .file :: listOf .module :: listOf .submodule :: listOf .program :: listOf .blockdata
         :: listOf .subroutine :: listOf .function :: listOf .modproc :: listOf .type :: listOf .variable
         :: listOf .boundproc :: listOf .finalproc :: listOf .generic :: listOf .absint :: listOf .enum
-        :: listOf .common :: listOf .arg :: []).contains l = true := by decide
+        :: listOf .common :: listOf .namelist :: listOf .arg :: []).contains l = true := by decide
 
 /-- Every project list `Project.find` searches (`LINK_TYPES`) is a list of entities that get a
     page (`Documentation`'s page map, filled from pruned lists: `pages_exact_partial`), the list of
@@ -186,6 +333,66 @@ theorem doc_links_point_at_selected_pages (cfg : Cfg) (p : List Ent) (hc : cfgOk
 
 /-! ### witnesses of the genuine violations -/
 
+/-- Known finding `C05-enum-never-filtered`: a private enumeration and its enumerator are
+    rendered under `display: public`. -/
+theorem enum_never_filtered_witness :
+    renderedOf (pruneProject (wCfg true) wEnum) = [1, 2, 3, 4]
+    ∧ selProject (wCfg true) wEnum = [1, 2]
+    ∧ outsideFindings (wCfg true) wEnum = false := by decide
+
+/-- Known finding `C05-namelist-never-filtered`: the private namelist 5 of the public subroutine 3 is
+    rendered on the procedure's page and gets a page of its own (which shows the private local variable
+    4 it groups) under `display: public`, with `proc_internals` off as well as on. -/
+theorem namelist_never_filtered_witness :
+    renderedOf (pruneProject (wCfg true) wNamelist) = [1, 2, 3, 5]
+    ∧ selProject (wCfg true) wNamelist = [1, 2, 3]
+    ∧ nmlPageIds wNamelist = [5] ∧ selNmlPages (wCfg true) wNamelist = []
+    ∧ 4 ∈ shownIds (wCfg true) wNamelist
+    ∧ renderedOf (pruneProject wCfgInt wNamelist) = [1, 2, 3, 5]
+    ∧ selProject wCfgInt wNamelist = [1, 2, 3]
+    ∧ outsideFindings (wCfg true) wNamelist = false ∧ outsideFindings wCfgInt wNamelist = false := by decide
+
+/-- Known finding `C05-module-namelist-not-described`: the public namelist 4 of a module is selected,
+    but no template of the module page renders it and it gets no page. -/
+theorem module_namelist_not_described_witness :
+    renderedOf (pruneProject wCfgInt wModuleNamelist) = [1, 2, 3]
+    ∧ selProject wCfgInt wModuleNamelist = [1, 2, 3, 4]
+    ∧ sitePageIds wCfgInt wModuleNamelist = [1, 2]
+    ∧ nmlSection .module = false ∧ nmlSection .submodule = false
+    ∧ outsideFindings wCfgInt wModuleNamelist = false := by decide
+
+/-- Known finding `C05-inherited-binding-links-to-unselected-type`: the public type 5 extends the private
+    type 3 and inherits its public binding 4; under `display: public` the binding survives in 5 and is
+    `visible`, so its name in the summary of 5 (module page) is a link - to its own URL, an anchor on the page
+    of the type that declares it, 3, which is neither selected nor written. -/
+theorem inherited_binding_links_to_unselected_type_witness :
+    foreignBindingsOf wInheritedBinding (pruneProject wCfgInt (inheritProject wInheritedBinding 8)) = [(4, 3)]
+    ∧ 4 ∈ visibleIdsOf (pruneProject wCfgInt (inheritProject wInheritedBinding 8))
+    ∧ sitePageIds wCfgInt (inheritProject wInheritedBinding 8) = [1, 2, 5]
+    ∧ selPages wCfgInt (inheritProject wInheritedBinding 8) = [1, 2, 5]
+    ∧ noExtension wInheritedBinding = false := by decide
+
+/-- Known finding `C05-blockdata-type-visible-before-prune`: the public type 5 of a block data unit extends
+    the private type 3 of the same unit; `FortranBlockData.correlate` has marked 3 `visible`, `prune()` removes it
+    under `display: public`, and `extends(t3)` in the summary / on the page of 5 is a link to the page of 3, which
+    is neither selected nor written.  (Without the marking in `correlate` there is no link: the model reads the
+    regenerated table.) -/
+theorem blockdata_extends_link_witness :
+    (C05.visibleInCorrelate = [("FortranBlockData", "typeorder")] →
+      extLinksOf wBlockDataExtends (pruneProject wCfgInt (inheritProject wBlockDataExtends 5))
+        (pruneProject wCfgInt (inheritProject wBlockDataExtends 5)) = [(5, 3)])
+    ∧ idsOf (pruneProject wCfgInt (inheritProject wBlockDataExtends 5)) = [1, 2, 5, 4]
+    ∧ sitePageIds wCfgInt (inheritProject wBlockDataExtends 5) = [1, 2, 5]
+    ∧ selPages wCfgInt (inheritProject wBlockDataExtends 5) = [1, 2, 5]
+    ∧ noBlockDataIn wBlockDataExtends = false := by decide
+
+/-- Known finding `C05-common-never-filtered`: the private member 4 of a common block of a module is
+    rendered under `display: public`. -/
+theorem common_never_filtered_witness :
+    renderedOf (pruneProject wCfgInt wCommon) = [1, 2, 3, 4]
+    ∧ selProject wCfgInt wCommon = [1, 2, 3]
+    ∧ outsideFindings wCfgInt wCommon = false := by decide
+
 /-- Known finding `C05-link-to-unselected-bound-procedure`: the comment of the public binding 4
     names the private procedure 5 it binds; the link is resolved through `bindings` and points at
     the page of 5, which is not among the pages; with the page test the link is not made. -/
@@ -217,5 +424,19 @@ example :
       = [⟨4, 4, some ⟨4, 3, false⟩⟩, ⟨4, 3, some ⟨3, 3, false⟩⟩,
          ⟨5, 3, some ⟨3, 3, false⟩⟩, ⟨5, 4, none⟩, ⟨5, 6, none⟩, ⟨5, 2, some ⟨2, 2, false⟩⟩]
     ∧ wfProject LinkWitness.pPlain = true ∧ cfgOk LinkWitness.cfg = true := by decide
+
+/-- a project with the kinds of round 3 - block data unit with a private variable and a type, generic
+    interface with an interface body (dummy argument, result) and a module procedure, declared function
+    result, a type that extends another (the public component 4 and the binding 6 are inherited, the
+    private component 5 is not), a namelist in a program - satisfies every hypothesis of the selection
+    theorems; the private variable 22 of the block data unit and the private component are filtered, the
+    namelist has its page -/
+example :
+    wfProject wRound3 = true ∧ cfgOk wCfgInt = true
+    ∧ outsideFindings wCfgInt (inheritProject wRound3 24) = true
+    ∧ renderedOf (pruneProject wCfgInt (inheritProject wRound3 24))
+        = [1, 2, 3, 4, 6, 7, 4, 6, 8, 9, 10, 11, 12, 17, 18, 19, 20, 21, 23, 24]
+    ∧ sitePageIds wCfgInt (inheritProject wRound3 24) = [1, 2, 3, 7, 9, 17, 20, 23, 19]
+    ∧ selNmlPages wCfgInt (inheritProject wRound3 24) = [19] := by decide
 
 end Ford.C05
